@@ -1,11 +1,13 @@
 (* Run_C05.v — entry points evaluated by the correspondence harness for C05 (tier T1). *)
-From DV Require Export Eval Sql.
+From DV Require Export Eval Sql Nested.
 Open Scope list_scope.
 
 Inductive c05case :=
 | CQuery (m : emodel) (rows : db) (q : query) (ps : params)
     (* one query: SQL text, parameter list, resolution flags, status, result *)
-| CPages (m : emodel) (rows : db) (q : query) (ps : params) (n : Z) (fuel : nat).
+| CPages (m : emodel) (rows : db) (q : query) (ps : params) (n : Z) (fuel : nat)
+| CNested (Q : q2) (nodes : list node) (ps : params).
+    (* tier T2, first slice: a query with nested entity / array references over a forest of rows *)
     (* q has order keys (all selected), no paging / first / skip: a client pages through it with
        first n + after(<keys of the last row received>) until an empty page comes back *)
 
@@ -31,6 +33,14 @@ Definition hash_text (s : str) : list Z :=
    fold_left (hash_step 998244353 2305843009213693921) s 11].
 Definition enc_answer (a : option (list (list val))) : list Z :=
   match a with Some rs => 0 :: enc_result rs | None => [2] end.
+
+Fixpoint enc_jv (j : jv) : list Z :=
+  match j with
+  | JS v => enc_val v
+  | JO l => 5 :: Z.of_nat (List.length l) :: flat_map enc_jv l
+  | JA l => 6 :: Z.of_nat (List.length l) :: flat_map enc_jv l
+  end.
+Definition enc_jvs (l : list jv) : list Z := Z.of_nat (List.length l) :: flat_map enc_jv l.
 
 (* ---- the paging client ---- *)
 Definition cursor_name (j : nat) : str := 99%N :: repeat 48%N j.          (* c, c0, c00, ... *)
@@ -86,6 +96,10 @@ Definition run_C05 (c : c05case) : list Z :=
       let '(vo, s) := compile m q in
       hash_text (norm_ws (print m s)) ++ enc_vo vo ++ sel_flags q ++ enc_answer (run_query m rows q ps)
   | CPages m rows q ps n fuel => enc_pages (pages (run_query m rows) q ps n fuel None)
+  | CNested Q nodes ps =>
+      let '(vo, c) := compile2 Q in
+      hash_text (norm_ws (print2 c)) ++ enc_vo vo ++
+      match run_query2 Q nodes ps with Some l => 0 :: enc_jvs l | None => [2] end
   end.
 
 (* ---- decoding the implementation's observation ---- *)
@@ -170,7 +184,17 @@ Definition spec_C05 (c : c05case) (obs : list Z) : bool :=
           end
       | _ => false
       end
+  | CNested Q nodes ps =>
+      (* the JSON of the implementation is the direct evaluation of the nested query *)
+      match (match obs with _ :: _ :: _ :: t => Some t | _ => None end) with
+      | Some t1 => match skip_vo t1 with
+                   | Some t2 => zlist_eqb t2 (0 :: enc_jvs (eval2 Q ps nodes))
+                   | None => false
+                   end
+      | None => false
+      end
   end.
+
 
 (* ---- classes of inputs on which the unchanged code is known to violate the property ---- *)
 Definition lacks (rows : db) (i : nat) : bool := existsb (fun r => is_null (nth i r VNull)) rows.
@@ -235,12 +259,21 @@ Definition known_query (m : emodel) (rows : db) (q : query) (ps : params) : list
        end) 1 ++
   cls (k_rawkey m rows q) 2 ++ cls (k_booldefault m rows q) 3 ++ cls (k_nullvar q ps) 6 ++ cls (k_firstzero q ps) 7.
 
+(* the open classes, level by level (each level over all the rows reachable at that level) *)
+Fixpoint known_nested (Q : q2) (nodes : list node) (ps : params) {struct Q} : list Z :=
+  match Q with
+  | Q2 m q subs =>
+      known_query m (map nvals nodes) q ps ++
+      flat_map (fun p : subinfo * q2 => known_nested (snd p) (flat_map (fun nd => nth (si_ref (fst p)) (nrefs nd) []) nodes) ps) subs
+  end.
+
 Definition known_C05 (c : c05case) : list Z :=
   match c with
   | CQuery m rows q ps => known_query m rows q ps
   | CPages m rows q ps n fuel =>
       cls (k_paging (List.length (q_order q)) m rows q ps || k_ties m rows q ps) 1 ++
       cls (k_rawkey m rows q) 2 ++ cls (k_booldefault m rows q) 3 ++ cls (k_nullvar q ps) 6
+  | CNested Q nodes ps => known_nested Q nodes ps
   end.
 
 (* ---- what the real parser and parameter validation guarantee (hypotheses of the theorems) ---- *)
@@ -276,11 +309,17 @@ Definition wf_pages (m : emodel) (q : query) (ps : params) : bool :=
   && forallb (fun k => match key_pos q k with Some _ => true | None => false end) (q_order q)
   && forallb (fun n => negb (is_cursor_name n)) (query_vars q).
 
+Fixpoint q2_ok (Q : q2) (ps : params) {struct Q} : bool :=
+  match Q with
+  | Q2 m q subs => wf_query m q && params_ok q ps && forallb (fun p : subinfo * q2 => q2_ok (snd p) ps) subs
+  end.
+
 (* diagnostic: the SQL text the model prints for a query case *)
 Definition text_C05 (c : c05case) : list Z :=
   match c with
   | CQuery m rows q ps => map Z.of_N (norm_ws (print m (snd (compile m q))))
   | CPages _ _ _ _ _ _ => []
+  | CNested Q _ _ => map Z.of_N (norm_ws (print2 (snd (compile2 Q))))
   end.
 
 (* diagnostic: are the hypotheses of the theorems met by a case? (evaluated by the harness statistics) *)
@@ -288,6 +327,7 @@ Definition wf_C05 (c : c05case) : list Z :=
   match c with
   | CQuery m rows q ps => [zb (wf_query m q); zb (params_ok q ps)]
   | CPages m rows q ps n fuel => [zb (wf_pages m q ps); zb (Z.ltb 0 n && Nat.ltb (List.length rows) fuel)]
+  | CNested Q nodes ps => [zb (q2_ok Q ps); 1]
   end.
 
 Definition eval_C05 (c : c05case) (obs : list Z) : list Z :=
